@@ -74,6 +74,8 @@ func c17ErrClass(err error) int {
 	return cls
 }
 
+var c17LastFn *thrift.FunctionDescriptor
+
 func c17Parse(idl string) (*thrift.TypeDescriptor, *thrift.TypeDescriptor, error) {
 	svc, err := thrift.Options{}.NewDescritorFromContent(context.Background(), "a.thrift", idl, map[string]string{}, false)
 	if err != nil {
@@ -83,7 +85,32 @@ func c17Parse(idl string) (*thrift.TypeDescriptor, *thrift.TypeDescriptor, error
 	if fn == nil {
 		return nil, nil, fmt.Errorf("no function M")
 	}
+	c17LastFn = fn
 	return fn.Request().Struct().FieldById(1).Type(), fn.Response().Struct().FieldById(0).Type(), nil
+}
+
+// check 1703: j2t.HTTPConv.Do = message header ++ BinaryConv output ++ footer, with HTTP mapping forced on
+func c17Envelope(fn *thrift.FunctionDescriptor, pops []hPop, bodyKind int, jbody []byte, uriPath string, bits int, plain []byte, plainEc int) {
+	for _, enable := range []bool{true, false} {
+		req, err := buildRequest(pops, bodyKind, jbody, uriPath)
+		if err != nil {
+			return
+		}
+		o := c17Opts(bits)
+		o.EnableHttpMapping = enable
+		ctx := context.WithValue(context.Background(), conv.CtxKeyConvOptions, c17Opts(bits))
+		var outb []byte
+		var cerr error
+		ok, _ := noPanic(func() {
+			hc := j2t.NewHTTPConv(meta.EncodingThriftBinary, fn)
+			outb, cerr = hc.Do(ctx, req, o)
+		})
+		ec := c17ErrClass(cerr)
+		if !ok {
+			ec = 4
+		}
+		out.emit(1703, fb(enable), fi(bodyKind), fs(fn.Name()), fi(ec), fx(outb), fi(plainEc), fx(plain))
+	}
 }
 
 func genC17(r *rng, n int) {
@@ -208,6 +235,9 @@ func c17Request(r *rng, big bool) {
 			fields = append(fields, view...)
 			fields = append(fields, fx(jbody), fi(ec), fx(outb))
 			out.emit(1701, fields...)
+			if impl == 0 && bodyKind != 1 && !big && i%4 == 0 {
+				c17Envelope(c17LastFn, pops, bodyKind, jbody, uriPath, bits, outb, ec)
+			}
 		}
 	}
 }
